@@ -15,18 +15,18 @@ WT="$(mktemp -d /tmp/cw.XXXXXX)"; rmdir "$WT"
 git -C /repo worktree add -q --detach "$WT" HEAD || exit 2
 trap 'git -C /repo worktree remove --force "$WT" 2>/dev/null; rm -rf "$WT"' EXIT
 cd "$WT"
-cp "$DEMO" "$DIR/zz_demo_test.go"
+i=0; for f in "$SRC"/*_test.go; do i=$((i+1)); cp "$f" "$DIR/zz_demo${i}_test.go"; done
 go test -tags verif -vet=off -count=1 -run "$RUN" "./$DIR/" >/tmp/cm.clean.log 2>&1; CLEAN=$?
-rm -f "$DIR/zz_demo_test.go"
+rm -f "$DIR"/zz_demo*_test.go
 git apply "$SRC/patch.diff" || { echo "patch does not apply to HEAD"; exit 2; }
 go build ./... >/tmp/cm.build.log 2>&1; BUILD=$?
 go test -vet=off -count=1 ./... >/tmp/cm.suite.log 2>&1; SUITE=$?
-cp "$DEMO" "$DIR/zz_demo_test.go"
+i=0; for f in "$SRC"/*_test.go; do i=$((i+1)); cp "$f" "$DIR/zz_demo${i}_test.go"; done
 go test -tags verif -vet=off -count=1 -run "$RUN" "./$DIR/" >/tmp/cm.mut.log 2>&1; MUT=$?
 echo "demo-clean=$CLEAN build=$BUILD suite=$SUITE demo-mutated=$MUT (want 0 0 0 non-zero)"
 if [ $CLEAN = 0 ] && [ $BUILD = 0 ] && [ $SUITE = 0 ] && [ $MUT != 0 ]; then
   OUT="/verif/seeded/$NAME"; mkdir -p "$OUT"
-  cp "$SRC/patch.diff" "$OUT/patch.diff"; cp "$DEMO" "$OUT/"; [ -f "$SRC/notes.md" ] && cp "$SRC/notes.md" "$OUT/notes.md"
+  cp "$SRC/patch.diff" "$OUT/patch.diff"; cp "$SRC"/*_test.go "$OUT/"; [ -f "$SRC/notes.md" ] && cp "$SRC/notes.md" "$OUT/notes.md"
   python3 - "$OUT" "$PROP" "$DIR" "$RUN" <<'PY'
 import json,sys,re
 out,prop,d,run=sys.argv[1:5]
